@@ -78,7 +78,7 @@ Lemma mu_attempt s a :
   o_own (objs s (a_o a)) = Some t -> a_ok o m b' tm' poll skip a -> time2 s0 b' tm' poll s (a_start a) ->
   (mu (after_attempt s t a) < if ub then 8 else 5 * rem (a_start a) (now s) + 3)%nat.
 Proof.
-  intros Hown (Ao & Am & Ab & At & Ap & As) (T1 & T2 & T3 & T4). unfold after_attempt, mu. rewrite Ab, At, Ap.
+  intros Hown (Ao & Am & Ab & At & Ap & As) (T1 & T2 & T3 & T4 & Tstart). unfold after_attempt, mu. rewrite Ab, At, Ap.
   destruct (pc_cleanup s a false Hown) as [C1 C2].
   unfold ub. destruct (Bool.bool_dec b' true) as [Eb|Eb]; [|apply not_true_is_false in Eb]; rewrite Eb; cbn [negb andb].
   2:{ rewrite C1, C2. cbn. lia. }
